@@ -17,7 +17,8 @@ def run(sid, props, tier):
         for p in props:
             t0 = time.time()
             try:
-                q = subprocess.run([VERIF + "/check", p, tier], capture_output=True, text=True, cwd=VERIF, timeout=1500)
+                env = dict(os.environ, VERIF_EVIDENCE_DIR="/tmp/hsverif-seeded-evidence")
+                q = subprocess.run([VERIF + "/check", p, tier], capture_output=True, text=True, cwd=VERIF, timeout=1500, env=env)
                 out, rc = q.stdout, q.returncode
             except subprocess.TimeoutExpired as e:
                 out, rc = (e.stdout or b"").decode() if isinstance(e.stdout, bytes) else (e.stdout or ""), "timeout"
